@@ -106,13 +106,15 @@ func decode(in any, out reflect.Value) error {
 			out.SetFloat(in)
 		case reflect.Int, reflect.Int8, reflect.Int16, reflect.Int32, reflect.Int64:
 			i, f := math.Modf(in)
-			if f != 0 || i > math.MaxInt64 || i < math.MinInt64 || out.OverflowInt(int64(i)) {
+			// float64(math.MaxInt64) is 2^63, which does not fit: the upper bound is exclusive.
+			if f != 0 || i >= 1<<63 || i < math.MinInt64 || out.OverflowInt(int64(i)) {
 				return fmt.Errorf("jwt: failed to convert number: overflow")
 			}
 			out.SetInt(int64(i))
 		case reflect.Uint, reflect.Uint8, reflect.Uint16, reflect.Uint32, reflect.Uint64, reflect.Uintptr:
 			i, f := math.Modf(in)
-			if f != 0 || i > math.MaxUint64 || i < 0 || out.OverflowUint(uint64(i)) {
+			// float64(math.MaxUint64) is 2^64, which does not fit: the upper bound is exclusive.
+			if f != 0 || i >= 1<<64 || i < 0 || out.OverflowUint(uint64(i)) {
 				return fmt.Errorf("jwt: failed to convert number: overflow")
 			}
 			out.SetUint(uint64(i))
